@@ -32,6 +32,7 @@ def write(prop, tier, seed, spec, proof, bounded, nviol, known_seen, undecided, 
             'functions_under_contract': proof['functions'],
             'solver_seconds': proof['solver_seconds'],
             'by_backend': proof['by_backend'],
+            'confirmed_by_second_solver': proof.get('confirmed_by_second_solver'),
             'demoted': proof.get('demoted', []),
             'vacuity_checks': proof.get('vacuity', {}),
             'obligation_samples': proof['samples'][:10],
